@@ -122,4 +122,7 @@ func VerifHarness_C20_Conc_SyncAck() { hSyncAck(2, false) }
 
 func VerifHarness_C20_Conc_SyncAckFailure() { hSyncAck(2, true) }
 
-func VerifHarness_C20_Conc_SyncAck3_Thorough() { hSyncAck(3, true) }
+func VerifHarness_C20_Conc_SyncAck3_Thorough() {
+	sym.MaxPreempt(2)
+	hSyncAck(3, true)
+}
